@@ -53,7 +53,7 @@ def main():
                              "it does not decide the value-level behaviour itself. " + rest)[:1500],
                     "design_ref": f"DESIGN.md section 4, {pid}",
                 },
-                "level_note": "Trusted base: CPython ast; hand-written numpy/xarray transfer tables; grid schema derived from uxarray/conventions; format specifications for reader role tables. Unknown idioms yield 'unknown' (silent) for contradiction rules and ANALYSIS-INCOMPLETE (exit 2) for proof rules.",
+                "level_note": "Trusted base: CPython ast; the behaviour-preserving source normaliser uxsa/normalise.py (rewrites with checked side conditions, validated by its equivalence samples in the setup command); hand-written numpy/xarray transfer tables; grid schema derived from uxarray/conventions; format specifications for reader role tables. A VIOLATION is reported only for a construct that is understood and wrong; a construct written in an idiom a rule cannot read yields ANALYSIS-INCOMPLETE (exit 2), never a silent pass for proof rules ('unknown' is silent only for contradiction rules).",
                 "technique": TECHNIQUE.get(pid, "static analysis: custom AST/dataflow checker"),
             })
         else:
